@@ -606,6 +606,15 @@ func (c *compiler) compile(tok *token) []instruction {
 					break
 				}
 			}
+			if hasCall(fnc) && hasCall(res) {
+				// calls happen in lexical left-to-right order: an operand that yields the
+				// function (a call returning it, or the receiver of a method) is evaluated
+				// before the calls among the arguments, and kept in a slot until the call
+				tmp := reg(c.Locals.Index("call@" + tok.Pos.String()))
+				fnc = append(fnc, instruction{Code: codeLocalSet, A: tmp})
+				res = append(fnc, res...)
+				fnc = []instruction{{Code: codeLocalGet, A: tmp}}
+			}
 			res = append(res, fnc...)
 
 			args := tok.Tokens[callArguments].Tokens
@@ -889,6 +898,17 @@ func (c *compiler) compile(tok *token) []instruction {
 		res[n].Pos = newPos(c.Globals, tok.Pos.Filename, c.FuncName, tok.Pos.Line, tok.Pos.Column)
 	}
 	return res
+}
+
+// hasCall reports whether running the instructions can call a function.
+func hasCall(ins []instruction) bool {
+	for _, i := range ins {
+		switch i.Code {
+		case codeCall, codeCallVariadic, codeFastCall, codeFastCallAttr:
+			return true
+		}
+	}
+	return false
 }
 
 func (c *compiler) toData(typ Type, data *token) []instruction {
